@@ -757,6 +757,7 @@ package rockredis
 //@   ensures result1 == nil ==> result0.OldHeader != nil && (result0.OldHeader.Ver == 0 || result0.OldHeader.Ver == 1) && smallTK(result0.Table, result0.VerKey)
 //@   ensures result1 == nil && (dt == SetType || dt == ZSetType) ==> (len(result0.OldHeader.UserData) == 0 || len(result0.OldHeader.UserData) >= 8) && setSize(result0.OldHeader.UserData) >= 0 && setSize(result0.OldHeader.UserData) < 4611686018427387904
 //@   ensures result1 == nil && dt == HashType ==> (len(result0.OldHeader.UserData) == 0 || len(result0.OldHeader.UserData) == 8) && storedSize(result0.OldHeader.UserData) >= 0 && storedSize(result0.OldHeader.UserData) < 4611686018427387904
+//@   ensures result1 == nil ==> collMetaOK(dt, result0.OldHeader.UserData)
 //@   ensures result1 != errTooMuchBatchSize
 
 // set meta: [size be64][modify time be64]
@@ -1409,3 +1410,31 @@ package rockredis
 //@   ensures result1 == nil && result0 != nil ==> len(result0) == ghost(kvlen, db)
 //@   ensures result1 != nil ==> result0 == nil
 //@   modifies alloftype(headerMetaValue)
+
+// ---- reads of a collection's size and of single members (C10, C08, C09): an expired collection (ghost(collexpired),
+// published by the trusted meta read) has size 0 and no members, whatever is still stored for it ----
+//@ property C10 C08 C09
+//@ func (db *RockDB) hHeaderMeta(ts int64, hkey []byte, useLock bool) (*headerMetaValue, bool, error)
+//@   inline
+//@ func (db *RockDB) hLen(tn int64, hkey []byte, useLock bool) (int64, error)
+//@   requires db != nil
+//@   ensures result1 == nil && ghost(collexpired, db) == 1 ==> result0 == 0
+//@   ensures result1 != nil ==> result0 == 0
+//@ func (db *RockDB) sGetSize(tn int64, key []byte, useLock bool) (int64, error)
+//@   requires db != nil
+//@   ensures result1 == nil && ghost(collexpired, db) == 1 ==> result0 == 0
+//@   ensures result1 != nil ==> result0 == 0
+//@ func (db *RockDB) zGetSize(tn int64, key []byte, useLock bool) (*headerMetaValue, int64, error)
+//@   requires db != nil
+//@   ensures result2 == nil && ghost(collexpired, db) == 1 ==> result1 == 0
+//@   ensures result2 == nil ==> result0 != nil
+//@ func (db *RockDB) LLen(key []byte) (int64, error)
+//@   requires db != nil
+//@   ensures result1 == nil && (ghost(collexpired, db) == 1 || ghost(collabsent, db) == 1) ==> result0 == 0
+//@ func (r *RockDB) Exist(key []byte) (bool, error)
+//@   trusted engine existence test (locking variant)
+//@   ensures result1 != nil ==> !result0
+//@ func (db *RockDB) SIsMember(key []byte, member []byte) (int64, error)
+//@   requires db != nil
+//@   ensures result1 == nil && (ghost(collexpired, db) == 1 || ghost(collabsent, db) == 1) ==> result0 == 0
+//@   ensures result1 == nil ==> result0 == 0 || result0 == 1
